@@ -1,5 +1,5 @@
 /-
-C06 — clauses of the property the unchanged tree does NOT satisfy, each with its full
+C06 — clauses of the property the tree does NOT satisfy (or did not before a repair), each with its full
 statement, a proved counter-example (kernel-evaluated) and a pointer to the provable part in
 `Props.lean`.  The counter-examples are the data `Driver.witnessLines` exports as protocol
 lines; they are replayed on the implementation on every run.
@@ -9,15 +9,31 @@ import CaddyModel.C06.Driver
 
 namespace CaddyModel.C06
 
-/-- FULL STATEMENT (false): letter case of the request path never matters, for every pattern list:
-      `∀ l p e p' e', lower p = lower p' → lower e = lower e' → pathCase l p e = pathCase l p' e'`.
-    Counter-example `wCasePct`: pattern `/a%2fb`; `/a%2fb` matches, `/A%2fb` does not — a pattern
-    with `%` is compared with the *escaped* path, whose letters (outside `%xx`) are never
-    lower-cased, although the pattern itself was lower-cased by Provision.
-    Provable part: `matchPath_case_invariant_partial` (no pattern contains `%`). -/
-theorem matchPath_case_invariant_full_fails :
+/-! ### the code before the `fix:` commit "path matcher: patterns containing % match
+    case-insensitively": the escaped path and the text built from it were not lower-cased -/
+
+def escMatchOld (escapedPath pat : Bytes) : Bool :=
+  match escLoop (pat.length + 1) pat escapedPath [] with
+  | .built sb => globMatch (replacePctStar pat) sb == .yes
+  | _ => false
+
+/-- old `MatchPath` loop body: differs from `patMatches` in the `%` branch only -/
+def patMatchesOld (lp esc : Bytes) (pat : Bytes) : Bool :=
+  if pat.contains cPct ∧ pat ≠ star then
+    escMatchOld (cleanPathMode (!containsSub pat [cSlash, cSlash]) esc) pat
+  else patMatches lp esc pat
+
+def pathCaseOld (l : List Bytes) (path esc : Bytes) : Bool :=
+  (provisionPath l).any (patMatchesOld (lower path) esc)
+
+/-- **the clause `matchPath_case_invariant` was false for the old code** (so the theorem is not
+    vacuous and the repair is what made it true): pattern `/a%2fb`; `/a%2fb` matched, `/A%2fb` did
+    not — a pattern with `%` was compared with the *escaped* path, whose letters (outside `%xx`)
+    were never lower-cased, although the pattern itself was lower-cased by Provision.
+    Regression case: `corpus/C06/escaped-pattern-case.txt` (`wCasePct`). -/
+theorem matchPath_case_invariant_old_code_fails :
     ∃ (l : List Bytes) (p e p' e' : Bytes), lower p = lower p' ∧ lower e = lower e' ∧
-      pathCase l p e ≠ pathCase l p' e' :=
+      pathCaseOld l p e ≠ pathCaseOld l p' e' ∧ pathCase l p e = pathCase l p' e' :=
   ⟨wCasePct.pats, wCasePct.p1, wCasePct.e1, wCasePct.p2, wCasePct.e2, by decide⟩
 
 /-- FULL STATEMENT (false): a duplicated slash never matters, for every pattern list:
